@@ -245,6 +245,9 @@ def model_line(case, floats):
         t = case.get("target")
         body = ["sentence", [fl, env, [sx_decl(d) for d in case["decls"]], case["spec"], case["argv"],
                              [] if t is None else ["t"] + [[k, vs] for k, vs in t]]]
+    elif op == "rerun":
+        r = case["root"]
+        body = ["rerun", [fl, env, [sx_decl(d) for d in r["decls"]], r["spec"], case["before"]["argv"], case["argv"]]]
     elif op == "views":
         body = ["views", [fl, env, [sx_decl(d) for d in case["decls"]], case["spec"], case["argvs"]]]
     else:
